@@ -387,17 +387,19 @@ func handleLPush(params internal.HandlerFuncParams) ([]byte, error) {
 		switch strings.ToLower(params.Command[0]) {
 		case "lpushx":
 			return nil, errors.New("LPUSHX command on non-existent key")
-		default:
-			if err = params.SetValues(params.Context, map[string]interface{}{key: []string{}}); err != nil {
-				return nil, err
-			}
 		}
 	}
 
-	currentList := params.GetValues(params.Context, []string{key})[key]
-	l, ok := currentList.([]string)
-	if !ok {
-		return nil, errors.New("LPUSH command on non-list item")
+	// A key that does not exist yet starts as an empty list. (It is not stored before the elements are
+	// added: if that second write were refused, an empty list would be left behind.)
+	l := []string{}
+	if keyExists {
+		currentList := params.GetValues(params.Context, []string{key})[key]
+		var ok bool
+		l, ok = currentList.([]string)
+		if !ok {
+			return nil, errors.New("LPUSH command on non-list item")
+		}
 	}
 
 	if err = params.SetValues(params.Context, map[string]interface{}{key: append(newElems, l...)}); err != nil {
@@ -426,17 +428,19 @@ func handleRPush(params internal.HandlerFuncParams) ([]byte, error) {
 		switch strings.ToLower(params.Command[0]) {
 		case "rpushx":
 			return nil, errors.New("RPUSHX command on non-existent key")
-		default:
-			if err = params.SetValues(params.Context, map[string]interface{}{key: []string{}}); err != nil {
-				return nil, err
-			}
 		}
 	}
 
-	currentList := params.GetValues(params.Context, []string{key})[key]
-	l, ok := currentList.([]string)
-	if !ok {
-		return nil, errors.New("RPUSH command on non-list item")
+	// A key that does not exist yet starts as an empty list. (It is not stored before the elements are
+	// added: if that second write were refused, an empty list would be left behind.)
+	l := []string{}
+	if keyExists {
+		currentList := params.GetValues(params.Context, []string{key})[key]
+		var ok bool
+		l, ok = currentList.([]string)
+		if !ok {
+			return nil, errors.New("RPUSH command on non-list item")
+		}
 	}
 
 	if err = params.SetValues(params.Context, map[string]interface{}{key: append(l, newElems...)}); err != nil {
